@@ -11,7 +11,8 @@ RULE = ('python-random histories: three well-behaved clients (names, match rules
         'messages of both byte orders (length words at limit values, bad padding/booleans/UTF-8/signatures/type/version/serial, reserved '
         'Local interface and path, forged fields), truncations followed by silence then abrupt close, trailing garbage, random garbage, '
         'oversized messages, floods of valid messages, re-Hello, traffic before Hello, abrupt closes; plus strangers that never authenticate '
-        '(junk, half handshakes, over-long lines, connect-and-go, up to 24 kept open).  Wire.tla decides per write whether it is a message, '
+        '(junk, half handshakes, over-long lines, connect-and-go, up to 24 kept open); every eighth scenario fills max_incomplete_connections exactly '
+        'with authenticated connections that then all say Hello, after which new clients must be served.  Wire.tla decides per write whether it is a message, '
         'invalid or incomplete; TLC requires every inbox of every client to be exactly what Bus.tla stages (so nothing of an invalid '
         'message is visible and every bystander call is answered), no stalled barrier, daemon alive without sanitizer report; '
         'distinct = distinct scenario texts')
@@ -128,7 +129,31 @@ def hostile_writes(rng):
     return [{'k': 'raw', 'hex': c.hex()} for c in cut(rng.choice(cands))]
 
 
+def at_the_incomplete_limit(rng):
+    """exactly max_incomplete_connections connections authenticate and only then say Hello (the bus stops accepting while
+    the limit is reached and must resume when they complete); afterwards new clients must still be served"""
+    n = rng.choice([2, 3])
+    cfg = {'maxIncomplete': n, 'maxMsgSize': MAXMSG, 'rawobs': True}
+    slots = [4, 5, 6][:n]
+    rounds = [{'ops': {'1': [{'k': 'connect', 'uid': 0}, {'k': 'hello'}, {'k': 'addmatch', 'rule': gen_bus.NOC_RULE}]}}]
+    for s in slots:
+        rounds.append({'ops': {str(s): [{'k': 'connect', 'uid': 0}]}})
+    order = slots[:]
+    rng.shuffle(order)
+    for s in order:
+        rounds.append({'ops': {str(s): [{'k': 'hello'}]}})
+    rounds.append({'ops': {'2': [{'k': 'connect', 'uid': 0}, {'k': 'hello'}, {'k': 'req', 'n': 'com.example.A', 'f': 0}]}})
+    for s in slots:
+        rounds.append({'ops': {str(s): rng.choice([[{'k': 'aclose'}], [{'k': 'close'}], hostile_writes(rng)])}})
+    rounds.append({'ops': {'3': [{'k': 'connect', 'uid': 0}, {'k': 'hello'}],
+                           '1': [{'k': 'send', 'ty': 1, 'dst': 'com.example.A', 'path': '/a', 'ifc': 'com.example.I', 'mem': 'Ma', 'sig': '', 'body': []}]}})
+    rounds.append({'ops': {'1': [{'k': 'query', 'q': 'list'}]}})
+    return {'cfg': cfg, 'rounds': rounds}
+
+
 def gen(rng, i):
+    if i % 8 == 5:
+        return at_the_incomplete_limit(rng)
     g = gen_bus.Gen(rng, nslots=3, nnames=2, w=W, odd_rules=0.02, eavesdrop=0.25)
     if rng.random() < 0.4:
         g.w = dict(g.w, monitor=0.15)
